@@ -27,11 +27,13 @@ CHECK_TEXT["C11"] = {
              "encode_wide_column_key lays out discriminant/key as Prefixed/Suffixed (fjall: with non-empty padding). Spec-level consequences proved "
              "from those contracts: extractor(lp(k)++e)=lp(k); lp(k1) prefix of lp(k2)++e => k1=k2 (no leakage between prefix-related / empty keys); "
              "lp(k) always has an upper bound; member split; (discriminant,key) -> bytes injective; padding creates no collision. "
-             "Tests sample a handful of keys; this holds for every key."),
+             "Write paths: every method of `impl WriteBatch` / `impl SerializationBuffer` of both backends issues (records) exactly one backend operation on the "
+             "column of its column type with the key bytes the scheme prescribes; consume_serialization_buffer replays the recorded operations in order, so "
+             "the direct and the recorded path agree. Tests sample a handful of keys; this holds for every key."),
     "design_ref": "DESIGN.md section 5 (C11)",
     "note": ("The backends (RocksDB, Fjall: ordering, atomic batches, bounds, persistence) are TRUSTED, as are the R10-R12 wrappers and interface stand-ins "
-             "listed in evidence; get/put plumbing, column-family management, commit and reopen are not under contract. "
-             "The claim is the encoding layer only."),
+             "listed in evidence (the backend batch is a ghost log of operations); column-family management, commit, the readers and reopen are not under contract "
+             "(the real-backend bounded run covers them). The claim is the encoding layer and the write paths."),
     "technique": "contract-based deductive verification: Verus (Z3) on mechanically extracted real functions, inductive lemmas for the scan window",
 }
 
